@@ -80,6 +80,19 @@ pub fn gen_pagedlost(rng: &mut Rng, n: usize, out: &mut Vec<String>) {
         if out.len() >= n { break; }
     }
 }
+/// C10 x C16 (F48): a caller that races next() against other events - every call is polled once and, if it is not ready, given up and made
+/// again later. Such a call can be given up anywhere, in particular while the adapter is asking for the next page. Oracle-only: what is
+/// handed over is a prefix of the result set in order; if it is not all of it the final result is the cancellation (88), never a page's
+/// own; no request repeats a cookie the server has already been sent.
+pub fn gen_pagedabandon(rng: &mut Rng, n: usize, out: &mut Vec<String>) {
+    let mut base = vec![]; gen_paged_x(rng, n * 2, &mut base, false);
+    for line in base.into_iter() {
+        let f: Vec<&str> = line.split(' ').collect();
+        if f.len() != 4 || f[2].contains('P') { continue; }
+        out.push(format!("pagedabandon {} {} {} A", f[1], f[2], f[3]));
+        if out.len() >= n { break; }
+    }
+}
 fn gen_paged_x(rng: &mut Rng, n: usize, out: &mut Vec<String>, early: bool) {
     for i in 0..n {
         let total = rng.below(30) as usize; let psize = 1 + rng.below(8) as usize;
@@ -203,6 +216,7 @@ async fn run_paged(args: &[String]) -> (String, Option<String>) {
     let mut l = ldap.clone();
     // optional 4th argument: the number of next() calls after which the caller finishes early ("-": read to the end)
     let stop: Option<usize> = args.get(3).and_then(|x| x.parse().ok());
+    let abandon = args.get(3).map_or(false, |x| x == "A");
     let size: i32 = args[0].parse().unwrap();
     let uc = &args[1][1..];
     // "E": the chain [EntriesOnly, PagedResults]; "R": the same two adapters the other way round, [PagedResults, EntriesOnly] - paging outside,
@@ -275,10 +289,19 @@ async fn run_paged(args: &[String]) -> (String, Option<String>) {
     let mut st = match started { Ok(s) => s, Err(ldap3::LdapError::AdapterInit(_)) => return ("rejected".into(), if with_paged { None } else { Some("a search without a caller paging control was rejected".into()) }), Err(e) => return (format!("starterr:{}", err_class(&e)), None) };
     // F34: a control (and search options) parked on the stream's own handle before the pages are read must reach the next operation invoked
     // on that handle - after the search, however many page switches lie in between (every fourth page size, not with early finish)
-    let parked = size % 4 == 0 && stop.is_none() && !with_paged;
+    let parked = size % 4 == 0 && stop.is_none() && !with_paged && !abandon;
     if parked { st.ldap_handle().with_controls(RawControl { ctype: "1.2.840.9999".into(), crit: false, val: None }); st.ldap_handle().with_search_options(ldap3::SearchOptions::new().sizelimit(77)); }
     let mut items: Vec<String> = vec![]; let mut end = "active";
-    for _ in 0..stop.unwrap_or(10000) { match st.next().await { Ok(Some(re)) => { let s = show_entry(&re); items.push(if s.starts_with('r') { format!("r{}", String::from_utf8_lossy(&unhex(&s[1..])).trim_start_matches("ldap://t").to_string()) } else { s }); } Ok(None) => { end = "done"; break; } Err(_) => { end = "error"; break; } } }
+    if abandon {
+        let mut idle = 0;
+        loop {
+            let r = { let fut = st.next(); futures_util::FutureExt::now_or_never(fut) };      // polled once; given up if not ready
+            match r { Some(Ok(Some(re))) => { idle = 0; let s = show_entry(&re); items.push(if s.starts_with('r') { format!("r{}", String::from_utf8_lossy(&unhex(&s[1..])).trim_start_matches("ldap://t").to_string()) } else { s }); }
+                Some(Ok(None)) => { end = "done"; break; } Some(Err(_)) => { end = "error"; break; }
+                None => { settle().await; idle += 1; if idle > 300 { end = "stuck"; break; } } }
+        }
+    }
+    for _ in 0..if abandon { 0 } else { stop.unwrap_or(10000) } { match st.next().await { Ok(Some(re)) => { let s = show_entry(&re); items.push(if s.starts_with('r') { format!("r{}", String::from_utf8_lossy(&unhex(&s[1..])).trim_start_matches("ldap://t").to_string()) } else { s }); } Ok(None) => { end = "done"; break; } Err(_) => { end = "error"; break; } } }
     let st_end = st.state();
     let res = st.finish().await;
     settle().await;
@@ -306,6 +329,19 @@ async fn run_paged(args: &[String]) -> (String, Option<String>) {
         let want_refs: Vec<String> = want_items.iter().filter(|x| x.starts_with('r')).map(|x| x[1..].to_string()).collect();
         if chained { want_items.retain(|x| x.starts_with('e')); }
         if let Some(k) = stop { want_items.truncate(k); }
+        if abandon {
+            // the calls were given up and made again at arbitrary points: a prefix, honestly labelled, and no cookie used twice
+            let lg = log.lock().unwrap();
+            let mut o = None;
+            if !want_items.starts_with(&items) { o = Some(format!("F48: with next() calls given up and repeated the stream yielded {:?}, which is not a prefix of the result set {:?}", items, want_items)); }
+            else if items.len() < want_items.len() && (res.rc != 88 || paged_in_final) { o = Some(format!("F48: {} of {} items were handed over, yet finish() returned code {} (paging control in it: {}) instead of the cancellation 88", items.len(), want_items.len(), res.rc, paged_in_final)); }
+            else if paged_in_final { o = Some("the final result still carries the paging control".to_string()); }
+            if o.is_none() { for (i, e) in lg.iter().enumerate() {
+                let f: Vec<&str> = e.split('/').collect();
+                let want_ck = if i == 0 { "-".to_string() } else if i <= pages.len() { pages[i - 1].last().unwrap()[1..].split('.').nth(1).unwrap().to_string() } else { "(no further request)".to_string() };
+                if f[1] != want_ck || i >= pages.len() { o = Some(format!("F48: request {} carries cookie {} but must carry {} (a follow-up was issued twice with the same cookie after a next() call had been given up at the page switch)", i, f[1], want_ck)); break; } } }
+            return (out, o);
+        }
         if chained && stop.is_none() && !lost { let got: Vec<String> = res.refs.iter().map(|u| u.trim_start_matches("ldap://t").to_string()).collect();
             if got != want_refs { oracle = Some(format!("behind EntriesOnly the final result must carry the reference URIs of all pages {:?} but carries {:?}", want_refs, got)); } }
         // C13: the search is over (read to the end, or finished early): no id reserved, no routing entry left
